@@ -560,6 +560,11 @@ def gen_ep_config_program(rng, name, overrides, migrate, reply, replies_feature)
     if reply in ("table", "legacy") and rng.random() < 0.6:
         # reply methods anywhere among the other handlers, e.g. before the migrate handler
         rng.shuffle(p["parts"][0]["handlers"])
+    if reply in ("table", "legacy") and migrate and sum(ord(ch) for ch in name) % 3 != 1:
+        # a reply method written before the migrate handler (two configurations out of three, whatever the shuffle did)
+        hs = p["parts"][0]["handlers"]
+        mig = [h for h in hs if h["kind"] == "migrate"]
+        hs[:] = [h for h in hs if h["kind"] != "migrate"] + mig
     if reply == "feature-only":
         # `sv::features(replies)` switched on, but no reply method declared: there is nothing to emit a reply entry point for
         p["replies"] = True
